@@ -223,6 +223,15 @@ func (s *Spec) Ops(st *explore.State) []explore.Op {
 		id := id
 		p := m.Props[id]
 		if p.Ended {
+			// a deposit for a proposal that has ended (or was dropped) must be refused: the module holds open deposits only
+			ops = append(ops, explore.Op{Name: fmt.Sprintf("DepositEnded(%d)", id), Run: func(c *explore.State) {
+				r := w.Deliver(c.Ctx, &govv1.MsgDeposit{ProposalId: id, Depositor: w.A(depositors[0]).Bech(), Amount: sdk.NewCoins(world.FXCoin(9000))})
+				c.Accepted = r.OK()
+				c.Outcome = map[bool]string{true: "ok", false: "rejected"}[r.OK()]
+				if r.OK() {
+					c.Violate("module-holds-open-deposits-only", sig("deposit-accepted-for-ended-proposal"), fmt.Sprintf("proposal %d has ended; a deposit of 9000 FX was accepted", id))
+				}
+			}})
 			continue
 		}
 		prop, err := gk.Proposals.Get(st.Ctx, id)
@@ -256,6 +265,15 @@ func (s *Spec) Ops(st *explore.State) []explore.Op {
 					}
 					if vn == "val1" && opt == govv1.OptionNoWithVeto {
 						continue // vetoes come from the delegator and the second validator (1/3 and 2/3 of the votes)
+					}
+					if vn == "d1" && opt == govv1.OptionNoWithVeto {
+						// a split vote: half yes, half veto
+						ops = append(ops, explore.Op{Name: fmt.Sprintf("Vote(%d,d1,half-YES-half-VETO)", id), Run: func(c *explore.State) {
+							half := sdkmath.LegacyNewDecWithPrec(5, 1).String()
+							r := w.Deliver(c.Ctx, govv1.NewMsgVoteWeighted(voters[vn].Acc(), id, govv1.WeightedVoteOptions{{Option: govv1.OptionYes, Weight: half}, {Option: govv1.OptionNoWithVeto, Weight: half}}, ""))
+							c.Accepted = r.OK()
+							c.Outcome = map[bool]string{true: "ok", false: "rejected"}[r.OK()]
+						}})
 					}
 					ops = append(ops, explore.Op{Name: fmt.Sprintf("Vote(%d,%s,%s)", id, vn, opt.String()[12:]), Run: func(c *explore.State) {
 						r := w.Deliver(c.Ctx, govv1.NewMsgVote(voters[vn].Acc(), id, opt, ""))
@@ -328,9 +346,18 @@ func (s *Spec) advance(c *explore.State, dt time.Duration) {
 		}
 		// turnout computed by the reference from the raw votes and delegations
 		voted := sdkmath.ZeroInt()
-		yes := sdkmath.ZeroInt()
-		veto := sdkmath.ZeroInt()
+		yes := sdkmath.LegacyZeroDec()
+		veto := sdkmath.LegacyZeroDec()
 		counted := map[string]sdkmath.Int{}
+		weightOf := func(v govv1.Vote, o govv1.VoteOption) sdkmath.LegacyDec {
+			t := sdkmath.LegacyZeroDec()
+			for _, wo := range v.Options {
+				if wo.Option == o {
+					t = t.Add(sdkmath.LegacyMustNewDecFromStr(wo.Weight))
+				}
+			}
+			return t
+		}
 		sn.deposits = map[string]sdkmath.Int{}
 		for _, d := range depositors {
 			if dep, err := gk.Deposits.Get(c.Ctx, collectionsJoin(id, w.A(d).Acc())); err == nil {
@@ -347,26 +374,23 @@ func (s *Spec) advance(c *explore.State, dt time.Duration) {
 			}
 			counted[n] = power[n]
 			voted = voted.Add(power[n])
-			if len(v.Options) == 1 && v.Options[0].Option == govv1.OptionYes {
-				yes = yes.Add(power[n])
-			}
-			if len(v.Options) == 1 && v.Options[0].Option == govv1.OptionNoWithVeto {
-				veto = veto.Add(power[n])
-			}
+			yes = yes.Add(weightOf(v, govv1.OptionYes).MulInt(power[n]))
+			veto = veto.Add(weightOf(v, govv1.OptionNoWithVeto).MulInt(power[n]))
 		}
 		// a validator that votes also carries the stake of its delegators who did not vote
 		if _, ok := counted["val1"]; ok {
 			if _, dv := counted["d1"]; !dv {
 				voted = voted.Add(power["d1"])
-				if v, err := gk.Votes.Get(c.Ctx, collectionsJoin(id, voters["val1"].Acc())); err == nil && len(v.Options) == 1 && v.Options[0].Option == govv1.OptionYes {
-					yes = yes.Add(power["d1"])
+				if v, err := gk.Votes.Get(c.Ctx, collectionsJoin(id, voters["val1"].Acc())); err == nil {
+					yes = yes.Add(weightOf(v, govv1.OptionYes).MulInt(power["d1"]))
+					veto = veto.Add(weightOf(v, govv1.OptionNoWithVeto).MulInt(power["d1"]))
 				}
 			}
 		}
 		sn.turnout = sdkmath.LegacyNewDecFromInt(voted).Quo(sdkmath.LegacyNewDecFromInt(bonded))
 		if voted.IsPositive() {
-			sn.yesShare = sdkmath.LegacyNewDecFromInt(yes).Quo(sdkmath.LegacyNewDecFromInt(voted))
-			sn.vetoShare = sdkmath.LegacyNewDecFromInt(veto).Quo(sdkmath.LegacyNewDecFromInt(voted))
+			sn.yesShare = yes.Quo(sdkmath.LegacyNewDecFromInt(voted))
+			sn.vetoShare = veto.Quo(sdkmath.LegacyNewDecFromInt(voted))
 		} else {
 			sn.yesShare = sdkmath.LegacyZeroDec()
 			sn.vetoShare = sdkmath.LegacyZeroDec()
@@ -387,7 +411,14 @@ func (s *Spec) advance(c *explore.State, dt time.Duration) {
 	}
 	c.Accepted, c.Outcome = true, "ok"
 	now := next.BlockTime()
-	for id, sn := range before {
+	// proposals in id order, so that the step's outcome label (the last proposal's fate) does not depend on map order
+	ids := make([]uint64, 0, len(before))
+	for id := range before {
+		ids = append(ids, id)
+	}
+	sort.Slice(ids, func(i, j int) bool { return ids[i] < ids[j] })
+	for _, id := range ids {
+		sn := before[id]
 		p := m.Props[id]
 		prop, err := gk.Proposals.Get(next, id)
 		if err != nil {
